@@ -256,6 +256,36 @@ def run_judges_every_packet():
     return ok
 
 
+def rollover_guard_reads_assigned_value():
+    """AST of Packetizer.read_message and send_message: the roll-over guard `if <name> == 0 and not
+    self._initial_kex_done: raise …` tests the very name that is then assigned to the sequence-number counter
+    (`self.__sequence_number_in/out = <name>`), i.e. the masked uint32 value — not an unmasked intermediate.  None if
+    the shape is not found."""
+    import paramiko.packet as P
+
+    res = []
+    for fn, attr in ((P.Packetizer.read_message, "sequence_number_in"), (P.Packetizer.send_message, "sequence_number_out")):
+        try:
+            tree = ast.parse(textwrap.dedent(inspect.getsource(fn)))
+        except (OSError, SyntaxError):
+            return None
+        guard_names = set()
+        for n in ast.walk(tree):
+            if isinstance(n, ast.If) and any(isinstance(x, ast.Raise) for x in n.body):
+                for c in ast.walk(n.test):
+                    if (isinstance(c, ast.Compare) and isinstance(c.left, ast.Name) and len(c.ops) == 1
+                            and isinstance(c.ops[0], ast.Eq) and isinstance(c.comparators[0], ast.Constant)
+                            and c.comparators[0].value == 0):
+                        if any(isinstance(y, ast.Attribute) and y.attr == "_initial_kex_done" for y in ast.walk(n.test)):
+                            guard_names.add(c.left.id)
+        assigned = [n.value for n in ast.walk(tree) if isinstance(n, ast.Assign) and any(
+            isinstance(t, ast.Attribute) and t.attr.endswith(attr) for t in n.targets)]
+        if not guard_names or not assigned:
+            return None
+        res.append(all(isinstance(v, ast.Name) and v.id in guard_names for v in assigned))
+    return all(res)
+
+
 def read_tables():
     """Key sets of every dispatch table, read from live objects of the tree under test."""
     import paramiko
@@ -317,12 +347,15 @@ def lean_tables(tables, consts, total):
         "def markerScanCoversWholeList : Bool := %s\n\n"
         "/-- Transport.run: no packet is skipped between read_message() and the strict-kex / expected-packet tests -/\n"
         "def runJudgesEveryPacket : Bool := %s\n\n"
+        "/-- Packetizer: the roll-over guard tests the (masked) value that is assigned to the sequence-number counter -/\n"
+        "def rolloverGuardReadsAssignedValue : Bool := %s\n\n"
         "end PV.Generated.C12\n" % (cl, "true" if total else "false", tables["highestUserauth"], body,
                                       "true" if run_check_order() else "false",
                                       "true" if run_replies_fixed_width() else "false",
                                       "true" if read_message_one_packet_per_call() else "false",
                                       "true" if marker_scan_covers_whole_list() else "false",
-                                      "true" if run_judges_every_packet() else "false")
+                                      "true" if run_judges_every_packet() else "false",
+                                      "true" if rollover_guard_reads_assigned_value() else "false")
     )
 
 
